@@ -292,7 +292,7 @@ class SupervisedOPF(OPF):
                 best_opf = copy.deepcopy(self)
                 best_t = t
 
-            errors = np.argwhere(Y_val != preds)
+            errors = np.argwhere(Y_val != preds).flatten()
 
             non_prototypes = 0
             for n in self.subgraph.nodes:
@@ -303,7 +303,7 @@ class SupervisedOPF(OPF):
                 ctr = non_prototypes
 
                 while ctr > 0:
-                    j = int(r.generate_uniform_random_number(0, len(X_train)))
+                    j = int(r.generate_uniform_random_number(0, len(X_train))[0])
 
                     if self.subgraph.nodes[j].status != c.PROTOTYPE:
                         X_train[j, :], X_val[err, :] = X_val[err, :], X_train[j, :]
